@@ -238,6 +238,11 @@ Inductive pipeline :=
 | PSharedTl (needles : list string)     (* shared parser, plus the linter's own file-level and same-line tests (collection-pipeline,
                                            stateless-class): [file marker; file bracket; file directive; tag; word; line bracket; line directive] *)
 | POwnLine (needles : list string)      (* no shared parser: [a; b; noqa] : a and b on the line, or noqa *)
+| PFileHeader (needles : list string) (filtered : bool)
+                                        (* file-header: its own file-level test over the header window (the shared marker and rule-list
+                                           functions, or one of the custom needles [file a; file b; line]); violations found in an
+                                           existing header (filtered = true) additionally pass through the shared parser and the custom
+                                           same-line needle; the "no header at all" violation (filtered = false) does not *)
 | PNone.                                (* no inline suppression at all *)
 
 Definition line_lower (pls : list pline) (v : nat) : option string :=
@@ -273,9 +278,20 @@ Definition tl_file_directive (n : list string) (line rule_id : string) : bool :=
 Definition tl_line_directive (n : list string) (ll rule_id : string) : bool :=
   containsb (nth_str 3 n) ll && containsb (nth_str 4 n) ll && (negb (containsb (nth_str 5 n) ll) || tl_rules_match ll (nth_str 6 n) rule_id).
 
-Definition extra_check (p : pipeline) (lines : list pline) (v : nat) (rule_id : string) : bool :=
+(* FileHeaderRule._line_has_matching_ignore / _is_ignore_line on one line of the header window *)
+Definition fh_file_line (q : iquirks) (n : list string) (line rule_id : string) : bool :=
+  (has_ignore_directive_marker q line && (check_specific_rule_ignore q line rule_id || check_general_ignore line))
+  || containsb (nth_str 0 n) (lower line) || containsb (nth_str 1 n) (lower line).
+
+Definition fh_file_level (q : iquirks) (n : list string) (lines : list pline) (rule_id : string) : bool :=
+  existsb (fun l => fh_file_line q n (pl_text l) rule_id) (firstn header_scan_lines lines).
+
+Definition extra_check (q : iquirks) (p : pipeline) (lines : list pline) (v : nat) (rule_id : string) : bool :=
   match p with
   | PShared => false
+  | PFileHeader n filtered =>
+      fh_file_level q n lines rule_id
+      || (filtered && match line_lower lines v with Some l => containsb (nth_str 2 n) l | None => false end)
   | PSharedTl n =>
       existsb (fun l => tl_file_directive n (pl_text l) rule_id) (firstn header_scan_lines lines)
       || match line_lower lines v with Some l => tl_line_directive n l rule_id | None => false end
@@ -290,10 +306,10 @@ Definition extra_check (p : pipeline) (lines : list pline) (v : nat) (rule_id : 
   end.
 
 Definition uses_shared (p : pipeline) : bool :=
-  match p with PShared | PSharedGeneric _ | PSharedGenericTs _ | PSharedTl _ => true | _ => false end.
+  match p with PShared | PSharedGeneric _ | PSharedGenericTs _ | PSharedTl _ => true | PFileHeader _ f => f | _ => false end.
 
 Definition suppressed_pre (q : iquirks) (p : pipeline) (hdr : list string) (pls : list pline) (v : nat) (rule_id : string) : bool :=
-  (uses_shared p && should_ignore_pre q hdr pls v rule_id) || extra_check p pls v rule_id.
+  (uses_shared p && should_ignore_pre q hdr pls v rule_id) || extra_check q p pls v rule_id.
 
 Definition suppressed (q : iquirks) (p : pipeline) (content : string) (v : nat) (rule_id : string) : bool :=
   let lines := lines_of q content in
